@@ -403,6 +403,81 @@ pub fn sweeps(ctx: &Ctx) -> Vec<Sweep> {
     v
 }
 
+/// Real keys, real verifier, signatures laid out as other OpenPGP tools lay them out — and valid signatures over other data.
+fn foreign_signatures(ctx: &Ctx) -> SubReport {
+    use crate::fsigner::{ForeignSigner, Layout, What, LAYOUTS};
+    let env = Env::new(&ctx.repo, "c02f");
+    let pkgs: Vec<(&str, rpm::Package)> = vec![
+        ("built-one-file", crate::corpus::one_file().build(&env).unwrap_or_else(|e| crate::ctx::machinery(&format!("c02 foreign: {}", e)))),
+        ("built-empty", BuildSpec::minimal().build(&env).unwrap_or_else(|e| crate::ctx::machinery(&format!("c02 foreign: {}", e)))),
+    ];
+    let verifiers: Vec<(Key, rpm::signature::pgp::Verifier)> = ALL_KEYS.iter().map(|k| (*k, k.verifier(&ctx.repo))).collect();
+    let keys: Vec<Key> = if ctx.thorough() { ALL_KEYS.to_vec() } else { crate::keys::FAST_KEYS.to_vec() };
+    let whats = [What::TheData, What::EmptyMessage, What::OtherData];
+    let mut cases: Vec<(usize, Key, Layout, What, bool)> = vec![];
+    for pi in 0..pkgs.len() {
+        for k in &keys {
+            for l in LAYOUTS {
+                for w in whats {
+                    for sub in [false, true] {
+                        cases.push((pi, *k, l, w, sub));
+                    }
+                }
+            }
+        }
+    }
+    let acc = merge(vlib::par::par_fold(cases.len() as u64, Acc::new, |i, acc| {
+        let (pi, key, layout, what, subkey) = cases[i as usize];
+        let Some(signer) = ForeignSigner::new(&ctx.repo, key, layout, what, subkey) else {
+            acc.count("key has no signing subkey (skipped)");
+            return;
+        };
+        acc.evals += 1;
+        let case = || json!({"package": pkgs[pi].0, "signing_key": key.name(), "made_by_subkey": subkey, "subpacket_layout": format!("{:?}", layout), "signature_covers": format!("{:?}", what)});
+        let mut p = pkgs[pi].1.clone();
+        match catch(|| p.sign_with_timestamp(&signer, 1_600_000_000u32)) {
+            Err(pn) => return acc.viol(panic_violation("foreign-signatures", &pn, case()).rank(i)),
+            Ok(Err(e)) => {
+                acc.count(&format!("signing failed (not judged): {}", err_kind(&e)));
+                return;
+            }
+            Ok(Ok(())) => {}
+        }
+        // through bytes, as a consumer would see it
+        let q = match write_pkg(&p).ok().map(|b| parse_pkg(&b)) {
+            Some(Ok(Ok(q))) => q,
+            _ => {
+                acc.count("signed package does not re-parse (not judged here)");
+                return;
+            }
+        };
+        acc.nontrivial += 1;
+        for (vk, v) in &verifiers {
+            match catch(|| q.verify_signature(v)) {
+                Err(pn) => acc.viol(panic_violation("foreign-signatures", &pn, case()).rank(i)),
+                Ok(Ok(())) => {
+                    acc.count("verifies");
+                    if what != What::TheData {
+                        acc.viol(Violation::new("foreign-signatures", format!("the stored signature covers {:?}, not the header, yet verification with the {} key succeeds", what, vk.name()), case()).sig("clause", "ok-for-signature-over-other-data").sig("layout", &format!("{:?}", layout)).rank(i));
+                    } else if *vk != key {
+                        acc.viol(Violation::new("foreign-signatures", format!("signed with the {} key, verification with the {} key succeeds", key.name(), vk.name()), case()).sig("clause", "other-key-verifies").rank(i));
+                    }
+                }
+                Ok(Err(_)) => acc.count("does not verify"),
+            }
+        }
+        if i % 37 == 0 {
+            acc.sample(i, case);
+        }
+    }));
+    SubReport::new(
+        "foreign-signatures",
+        "A",
+        &format!("{} packages × {} keys × signature subpacket layouts {:?} × made by the primary key / by its signing subkey × the signature covers {{the header, the empty message, the header with one bit changed}} — all valid OpenPGP signatures made with the real secret keys and attached through the public Signing trait; then verify_signature with each of the five real public keys. Oracle (only-if): success ⇒ the signature covers the header and was made with the verifier's key. non-trivial = package signed and re-parsed", pkgs.len(), keys.len(), LAYOUTS),
+        acc,
+    )
+}
+
 pub fn run(ctx: &Ctx) -> i32 {
     let mut subs: Vec<SubReport> = vec![];
     for s in sweeps(ctx) {
@@ -413,6 +488,7 @@ pub fn run(ctx: &Ctx) -> i32 {
         subs.push(sub);
     }
     subs.push(crate::aging::run(ctx, "object-histories", &["signature"]));
+    subs.push(foreign_signatures(ctx));
     for s in &subs {
         if s.acc.nontrivial == 0 {
             crate::ctx::machinery(&format!("sub-check {} judged nothing: vacuous", s.name));
